@@ -31,6 +31,8 @@ type Env struct {
 	preEnv      *Env // loop invariants: environment of the state on loop entry, for pre(e)
 	// localsAfter: source-level locals consulted after parameters and results (ensures, at-call)
 	localsAfter func(name string) (Val, bool)
+	outerVars   map[string]Val // at-call clauses: the caller's parameters (reachable with outer(x))
+	entryVars   map[string]Val // at-call clauses: entry values of the caller's parameters (for old())
 }
 
 func (e *Env) child() *Env {
@@ -200,6 +202,13 @@ func (e *Env) Eval(ex Expr) (Val, error) {
 				}
 				bodyT = fmt.Sprintf("(! %s %s)", bodyT, strings.Join(ps, " "))
 			}
+		} else if len(t.Vars) == 2 {
+			// two index variables: one multi-pattern made of a slice-index term for each
+			pa := sidxPatterns(bodyT, "q$"+t.Vars[0].Name)
+			pb := sidxPatterns(bodyT, "q$"+t.Vars[1].Name)
+			if len(pa) > 0 && len(pb) > 0 {
+				bodyT = fmt.Sprintf("(! %s :pattern (%s %s))", bodyT, pa[0], pb[0])
+			}
 		}
 		return Val{T: fmt.Sprintf("(%s (%s) %s)", kw, strings.Join(binders, " "), bodyT), Ty: types.Typ[types.Bool]}, nil
 	case *EComposite:
@@ -261,6 +270,11 @@ func (e *Env) evalIdent(name string) (Val, error) {
 	u := e.u
 	if v, ok := e.bound[name]; ok {
 		return v, nil
+	}
+	if e.inOld && e.entryVars != nil {
+		if v, ok := e.entryVars[name]; ok {
+			return v, nil
+		}
 	}
 	if e.locals != nil && !e.inOld {
 		if v, ok := e.locals(name); ok {
@@ -663,6 +677,20 @@ func (e *Env) evalCall(t *ECall) (Val, error) {
 	}
 	if fpkg == "" {
 		switch fname {
+		case "outer":
+			// outer(x) inside an at-call clause: the caller's parameter or local x
+			if id, ok := t.Args[0].(*EIdent); ok && len(t.Args) == 1 {
+				if v, ok := e.outerVars[id.Name]; ok {
+					return v, nil
+				}
+				if e.localsAfter != nil {
+					if v, ok := e.localsAfter(id.Name); ok {
+						return v, nil
+					}
+				}
+				return Val{}, e.errf("outer(%s): no such parameter or local of the caller", id.Name)
+			}
+			return Val{}, e.errf("outer() takes one identifier")
 		case "old":
 			if len(t.Args) != 1 {
 				return Val{}, e.errf("old takes one argument")
